@@ -2,7 +2,7 @@ use prost::Message;
 use std::{collections::HashMap, time::Duration};
 
 use crate::{
-    builder::{load_and_translate_block, BlockBuilder, Convert, Policy},
+    builder::{load_and_translate_block, BlockBuilder, Convert, Fact, Policy},
     datalog::{Origin, RunLimits, TrustedOrigins},
     error,
     format::{
@@ -169,7 +169,9 @@ impl super::Authorizer {
 
             for fact in &facts {
                 let fact = proto_fact_to_token_fact(fact)?;
-                //let fact = Fact::convert_from(&fact, &symbols)?.convert(&mut authorizer.symbols);
+                // the fact is stored as is, but it has to be expressible with the snapshot's
+                // tables: printing and dumping the authorizer rely on it
+                Fact::convert_from(&fact, &authorizer.symbols)?;
                 authorizer.world.facts.insert(&origin, fact);
             }
         }
